@@ -58,7 +58,10 @@ static size_t valid_arg(char *o, int type, size_t size)
         case CAT_VAR_UINT_DEC: return (size_t)sprintf(o, "%u", rn(200));
         case CAT_VAR_NUM_HEX: return (size_t)sprintf(o, "0x%X", rn(200));
         case CAT_VAR_BUF_HEX: { size_t nb = 1 + rn((unsigned)size); for (size_t i = 0; i < nb * 2; i++) o[i] = "0123456789abcdefABCDEF"[rn(22)]; o[nb * 2] = 0; return nb * 2; }
-        default: { size_t L = rn((unsigned)size), k = 0; o[k++] = '"'; for (size_t i = 0; i < L; i++) o[k++] = (char)('a' + rn(26)); o[k++] = '"'; o[k] = 0; return k; }
+        default: {      /* a valid string of L decoded characters: letters, commas, and the three escapes (also as the last character: "...\\\\" ends in an escaped backslash right before the closing quote) */
+                size_t L = rn((unsigned)size), k = 0; o[k++] = '"';
+                for (size_t i = 0; i < L; i++) { unsigned r = rn(12); if (r == 0 || (i + 1 == L && r < 4)) { o[k++] = '\\'; o[k++] = "\\\"n"[rn(3)]; } else if (r == 1) o[k++] = ','; else o[k++] = (char)('a' + rn(26)); }
+                o[k++] = '"'; o[k] = 0; return k; }
         }
 }
 static const size_t WIDTHS[9] = { 1, 2, 4, 3, 8, 257, 258, 260, 65540 };     /* supported, unsupported, and unsupported widths whose low byte / low 16 bits look supported */
@@ -73,6 +76,7 @@ static void sweep_case(long item)
         int nv = pos + 1 + (int)rn(4 - (unsigned)pos);
         for (int j = 0; j < nv; j++) {
                 AF[j].type = (j == pos) ? type : (int)rn(5); AF[j].access = chance(80) ? CAT_VAR_ACCESS_READ_WRITE : CAT_VAR_ACCESS_WRITE_ONLY; AF[j].no_callback = chance(30);
+                if (j != pos && AF[j].type > CAT_VAR_NUM_HEX && chance(25)) AF[j].access = CAT_VAR_ACCESS_READ_ONLY;      /* read-only buffers / strings around the number: their arguments are checked and skipped */
                 AF[j].size = (j == pos) ? WIDTHS[wi] : (AF[j].type <= CAT_VAR_NUM_HEX ? WIDTHS[rn(3)] : 1 + rn(8));
         }
         uint8_t args[1400]; size_t n = 0; char f[500];
